@@ -189,6 +189,15 @@ func NewFixture(v Variant) *Fixture {
 		opts = append(opts, invocation.WithArgument(k, vals[k]), invocation.WithMeta(k, "m-"+k))
 	}
 	opts = append(opts, invocation.WithArgument("l", []int{1, 2, 3}), invocation.WithMeta("secret", secretCiphertext(v)))
+	// the optional cause: absent (no keys), a CIDv1 (first key a), or a CIDv0 - the older link form, which names the same
+	// block as a CIDv1 with the dag-pb codec but is a different link: no operation may upgrade it in the token
+	if len(v.Keys) > 0 {
+		cause := synthCid("c20-cause")
+		if v.Keys[0] != "a" {
+			cause = cid.NewCidV0(cause.Hash())
+		}
+		opts = append(opts, invocation.WithCause(&cause))
+	}
 	inv, err := invocation.New(leaf.DID, root.DID, "/a", f.Cids, opts...)
 	if err != nil {
 		panic(err)
@@ -588,6 +597,13 @@ func Ops() []Op {
 }
 
 // ---- deep structural dump (private state, storage order) ----
+
+// DumpValue renders the complete reachable state of one value (a token), like Dump.
+func DumpValue(v any) string {
+	var b strings.Builder
+	dumpValue(&b, reflect.ValueOf(v), 0)
+	return b.String()
+}
 
 // Dump renders the complete reachable state of the fixture's tokens: unexported
 // fields included, slices in storage order, maps sorted by key.
